@@ -25,3 +25,7 @@ VIEW View
 INVARIANTS TypeOK FolTypeOK C06_Order
 PROPERTIES C06_HWMonotone C06_StaleFenceF C06_StaleMetaF C06_StaleMeta C06_StaleFence
 CHECK_DEADLOCK FALSE
+\* follower level only (the machine and reactor levels are checked by MC_quick.cfg).
+\* measured: 17,310 distinct / 118,122 generated states, depth 17 (32-38 s with 4 workers at load ~40);
+\* every follower action is taken (coverage run: NFMeta 3320, LoadDone 228, NPullResp 6133, NApplyDone 2078,
+\* Tick 1513, CkptDone 2127, NInstallDone 1905 distinct successors)
